@@ -3271,6 +3271,11 @@ impl LineBuf {
 					}
 				} else {
 					match motion {
+						MotionKind::ExclusiveWithTargetCol((range_start,_),_) |
+							MotionKind::InclusiveWithTargetCol((range_start,_),_) if verb == Verb::Change => {
+								// 'cc': the lines are emptied and the typed text goes where they began
+								self.cursor.set(range_start);
+							}
 						MotionKind::ExclusiveWithTargetCol((_,_),pos) |
 							MotionKind::InclusiveWithTargetCol((_,_),pos) => {
 								let (start,end) = self.this_line();
